@@ -33,7 +33,7 @@ from ..engine.resolver import FuncNode, Program, walk_no_nested
 from ..engine.sympath import SymUnsupported, sym_block
 from ..engine.util import find_calls, method_call, u
 from ._c17_util import (FIELDS, GROUP, Side, agg_term, availability, bind_target, elem_of, nonempty_test, fold_loops, index_fields, is_name,
-                        loop_passes, name, prepared, project_records, record_fields, returns_of, seg, set_elem, simple_call, splice, strip_doc)
+                        loop_passes, name, path_follower, prepared, project_records, record_fields, returns_of, seg, set_elem, simple_call, splice, strip_doc)
 
 MC = "timeseries.battery_pool._metric_calculator"
 BMM = "microgrid._power_distributing._component_managers._battery_manager"
@@ -87,12 +87,29 @@ class Validated:
         self.nested = {n.name: n for n in ast.walk(node)
                        if isinstance(n, (ast.FunctionDef, ast.AsyncFunctionDef)) and n is not node}
         cands: dict[int, Any] = {}
-        for c in ast.walk(node):
-            if isinstance(c, ast.Call):
-                h = _helper_target(prog, fn, c, self.nested)
-                if h is not None and h is not node and isinstance(h, ast.FunctionDef) \
-                        and find_calls(h, lambda k: _callee(k) == "PowerBounds"):
-                    cands[id(h)] = h
+        seen: set[int] = {id(node)}
+        frontier: list[Any] = [node]
+        for _ in range(4):                              # helpers called by helpers
+            nxt = []
+            for f in frontier:
+                for c in ast.walk(f):
+                    if isinstance(c, ast.Call):
+                        h = _helper_target(prog, fn, c, self.nested)
+                        if h is None or id(h) in seen or not isinstance(h, ast.FunctionDef):
+                            continue
+                        seen.add(id(h))
+                        nxt.append(h)
+                        # the per-component reader indexes a list of metric values into the record
+                        if any(isinstance(a, ast.Subscript) for k in find_calls(h, lambda k: _callee(k) == "PowerBounds")
+                               for a in list(k.args) + [w.value for w in k.keywords]) \
+                                or (f is node and find_calls(h, lambda k: _callee(k) == "PowerBounds")):
+                            cands[id(h)] = h
+            frontier = nxt
+        if len(cands) > 1:                              # prefer the reader proper (record built from list items)
+            readers = {i: h for i, h in cands.items() if any(
+                isinstance(a, ast.Subscript) for k in find_calls(h, lambda k: _callee(k) == "PowerBounds")
+                for a in list(k.args) + [w.value for w in k.keywords])}
+            cands = readers or cands
         if len(cands) != 1:
             raise AnalysisError(f"{fn.qual}: the function building a component's PowerBounds from its metrics "
                                 f"is not identified ({sorted(h.name for h in cands.values())})")
@@ -205,6 +222,7 @@ def advertised(prog: Program) -> dict[str, Any]:
     node = prepared(prog, fn)
     vfn = Validated(prog, fn, node)
     vcall = vfn.match
+    follow = path_follower(prog, fn, stop=(vfn.name,))   # helpers still called are executed on the path
     prov: list[tuple[str, str, str]] = []          # (kind, ids the bounds are read for, metric list)
 
     def leaf_bat(e: ast.AST) -> str | None:
@@ -229,7 +247,7 @@ def advertised(prog: Program) -> dict[str, Any]:
     per_return: list[dict[str, Any]] = []
     guards: list[Any] = []
     wiring_ok = True
-    for p in returns_of(node, fn.qual):
+    for p in returns_of(node, fn.qual, follow):
         r = p.ret
         if not (isinstance(r, ast.Call) and _callee(r) == "SystemBounds" and not r.args):
             raise AnalysisError(f"{fn.qual}: line {p.lineno}: the result is not a SystemBounds(...) record")
@@ -248,12 +266,15 @@ def advertised(prog: Program) -> dict[str, Any]:
         if len(slots) != 4:
             wiring_ok = False
             continue
-        per_return.append({role: agg_term(fold_loops(node, e, guards), side) for role, e in slots.items()})
+        per_return.append({role: agg_term(fold_loops(node, e, guards, follow), side) for role, e in slots.items()})
     if not per_return:
         wiring_ok = False
 
     def data_guard(test: ast.AST, outcome: bool) -> bool:
         """the adding pass requires exactly: a list of validated component bounds is not empty"""
+        if isinstance(test, ast.Compare) and len(test.ops) == 1 and isinstance(test.ops[0], (ast.Is, ast.IsNot)) \
+                and _is_none(test.comparators[0]) and isinstance(test.left, ast.Call) and _callee(test.left) in records:
+            return isinstance(test.ops[0], ast.IsNot) == outcome      # a freshly built record is never None
         lst = nonempty_test(test, outcome)
         return lst is not None and vcall(elem_of(lst)) is not None
 
@@ -819,23 +840,34 @@ def structural_controls(prog: Program) -> list[tuple[str, str, str, str, str]]: 
             and isinstance(t.operand, ast.Attribute) and t.operand.attr == "component_ids"]
     if len(empt) == 1:
         add(CONTROLS[7][0], BMM, [(empt[0], seg(bsrc, empt[0].operand))])
-    # 9. a data guard of the advertised group loop tests `== 1` instead of `== 0`
+    # 9. a data guard of the advertised side (in `calculate` or a private method it calls) tests `== 1`
+    #    instead of `== 0`: the guard is an `if` over `len(…) <op> 0` that leaves the group (continue / return)
     calc_fn = calc.methods.get("calculate")
     if calc_fn is not None:
-        zeros = sorted((c.lineno, c.col_offset, k) for c in ast.walk(calc_fn.node) if isinstance(c, ast.Compare)
-                       and len(c.ops) == 1 for a, k in ((c.left, c.comparators[0]), (c.comparators[0], c.left))
+        scope, frontier = [calc_fn.node], [calc_fn.node]
+        for _ in range(3):
+            nxt = [m.node for f in frontier for c in ast.walk(f) if isinstance(c, ast.Call)
+                   and isinstance(c.func, ast.Attribute) and isinstance(c.func.value, ast.Name)
+                   and c.func.value.id in ("self", "cls", calc.name) for m in [calc.methods.get(c.func.attr)]
+                   if m is not None and m.node not in scope]
+            scope += [n for n in dict.fromkeys(nxt) if n not in scope]
+            frontier = nxt
+        zeros = sorted((i.lineno, i.col_offset, k) for f in scope for i in ast.walk(f) if isinstance(i, ast.If)
+                       and isinstance(i.body[-1], (ast.Continue, ast.Return)) for c in [i.test]
+                       if isinstance(c, ast.Compare) and len(c.ops) == 1
+                       for a, k in ((c.left, c.comparators[0]), (c.comparators[0], c.left))
                        if simple_call(a, ("len",), 1) is not None and isinstance(k, ast.Constant) and k.value == 0
                        and isinstance(k.value, int) and not isinstance(k.value, bool))
         if zeros:
             add(CONTROLS[8][0], MC, [(zeros[0][2], "1")])
-    # 10. the group's pair is not appended to the returned list
-    gcd = gb.methods.get("_get_components_data")
-    if gcd is not None:
-        outs = {r.value.id for r in walk_no_nested(gcd.node) if isinstance(r, ast.Return) and isinstance(r.value, ast.Name)}
-        apps = [st for st in ast.walk(gcd.node) if isinstance(st, ast.Expr) and isinstance(st.value, ast.Call)
-                and len(outs) == 1 and method_call(st.value, next(iter(outs)), "append")]
-        if len(apps) == 1:
-            add(CONTROLS[9][0], BMM, [(apps[0], "pass")])
+    # 10. the group's pair is not appended to the returned list (the loop that fetches the group's data,
+    #     in whichever method of the manager it lives)
+    apps = [st for m in gb.methods.values() for lp in ast.walk(m.node) if isinstance(lp, ast.For)
+            and find_calls(lp, lambda c: method_call(c, None, "_get_battery_inverter_data"))
+            for st in ast.walk(lp) if isinstance(st, ast.Expr) and isinstance(st.value, ast.Call)
+            and method_call(st.value, None, "append") and isinstance(st.value.func.value, ast.Name)]  # type: ignore[attr-defined]
+    if len(apps) == 1:
+        add(CONTROLS[9][0], BMM, [(apps[0], "pass")])
     # 11. a NaN test that drops the group is inverted
     gbi = gb.methods.get("_get_battery_inverter_data")
     if gbi is not None:
